@@ -175,6 +175,20 @@ Theorem C16_insert_is_bytes :
 Proof. exact StructureP.insert_bytes. Qed.
 Print Assumptions C16_insert_is_bytes.
 
+(* ... per occurrence and with the file system keyed by (including file, path as written): the
+   'insert_file "name"' written in file g is the '.byte' data of [blob g name], the file that this
+   spelling resolves to FROM g -- in the whole program, wherever g is linked or included from.  The same
+   spelling in another file h stands for [blob h name], possibly another file. *)
+Theorem C16_insert_is_bytes_per_occurrence :
+  forall (P : Type) (emit : P -> Z -> res (list Z)) (blob : fid -> nat -> list Z) src g pre nm post,
+    src g = pre ++ SInsertAt nm :: post ->
+    blob g nm <> [] -> Forall (fun b => 0 <= b < 256) (blob g nm) ->
+    forall fuel f a t,
+      compile_file P emit (elab_table P blob src) fuel f a t
+      = compile_file P emit (elab_table P blob (upd P src g (pre ++ SStmt (Byte (blob g nm)) :: post))) fuel f a t.
+Proof. exact StructureP.insert_at_bytes. Qed.
+Print Assumptions C16_insert_is_bytes_per_occurrence.
+
 (* an empty inserted file contributes nothing *)
 Theorem C16_insert_empty :
   forall (P : Type) (emit : P -> Z -> res (list Z)) rec me pre post a t,
